@@ -97,7 +97,7 @@ pub fn build(id: &str, tier: Tier) -> Option<Check> {
             id: "C01",
             jobs: vec![
                 bfs(ulc("c01-lifecycle", |h| { h.arm.c01 = true; h.with_bond = !q; h.with_convert = !q; h.with_slash_bonded = true; h.budget = tier.pick(1, 2); h.slash_vals = vec!["val1", "val2"]; h.seeds = vec!["funded", "slashed", "inflight", "two_inflight"]; if !q { h.users = vec![ALICE, BOB, CAROL]; h.seeds.push("three_users"); } }), tier.pick(4, 6), secs),
-                bfs(ulc("c01-long-history", |h| { h.arm.c01 = true; h.seeds = vec!["ten_batches"]; h.sym = false; h.amounts_abs = vec![3]; h.budget = 1; h.slash_vals = vec!["val1"]; }), tier.pick(4, 6), secs),
+                bfs(ulc("c01-long-history", |h| { h.arm.c01 = true; h.seeds = vec!["ten_batches", "zero_batch"]; h.sym = false; h.amounts_abs = vec![3]; h.budget = 1; h.slash_vals = vec!["val1"]; }), tier.pick(4, 6), secs),
                 bfs(ulc("c01-1e15", |h| { h.arm.c01 = true; h.arm.c06 = true; h.scale = 1_000_000_000_000_000; h.sym = false; h.amounts_abs = vec![100, 37]; h.seeds = vec!["two_inflight", "slashed"]; h.slash_vals = vec!["val1", "val2"]; h.budget = tier.pick(2, 3); h.with_rogue = true; }), tier.pick(4, 6), secs),
                 bfs(ulc("c01-pegfee", |h| { h.arm.c01 = true; h.peg_fee = "0.01"; h.seeds = vec!["slashed"]; h.budget = 1; }), tier.pick(5, 7), secs),
                 bfs(ulc("c01-dust-stsei", |h| { h.arm.c01 = true; h.users = vec![ALICE, BOB, CAROL]; h.tokens = vec![STSEI]; h.sym = false; h.amounts_abs = vec![1, 100]; h.seeds = if q { vec!["dustgroup"] } else { vec!["dust", "dustgroup"] }; h.with_rogue = false; h.budget = 1; }), tier.pick(6, 10), secs),
@@ -136,7 +136,7 @@ pub fn build(id: &str, tier: Tier) -> Option<Check> {
             jobs: vec![
                 bfs(hub("c09-exits", |h| { h.arm.c09 = true; h.with_rewards = true; h.with_transfers = true; h.budget = tier.pick(1, 2); h.slash_fracs = vec![(1, 10), (1, 2)]; h.seeds = if q { vec!["funded", "slashed", "inflight"] } else { vec!["funded", "slashed", "slashed_unseen", "inflight", "rewarded", "three_vals"] }; }), tier.pick(3, 5), secs),
                 bfs(hub("c09-long-history", |h| { h.arm.c09 = true; h.seeds = vec!["ten_batches"]; h.budget = 0; h.with_convert = false; h.bond_amounts = vec![100]; }), tier.pick(2, 3), secs),
-                bfs(ulc("c09-matured-claims", |h| { h.arm.c09 = true; h.seeds = vec!["two_inflight", "ten_batches", "slashed"]; h.sym = false; h.amounts_abs = vec![3]; h.budget = 1; h.slash_vals = vec!["val1", "val2"]; h.unbonding_slash = vec![(1, 2), (1, 100)]; h.with_rogue = false; }), tier.pick(4, 6), secs),
+                bfs(ulc("c09-matured-claims", |h| { h.arm.c09 = true; h.seeds = vec!["two_inflight", "ten_batches", "slashed", "zero_batch"]; h.sym = false; h.amounts_abs = vec![3]; h.budget = 1; h.slash_vals = vec!["val1", "val2"]; h.unbonding_slash = vec![(1, 2), (1, 100)]; h.with_rogue = false; }), tier.pick(4, 6), secs),
                 bfs(hub("c09-pegfee", |h| { h.arm.c09 = true; h.peg_fee = "0.01"; h.seeds = vec!["slashed"]; h.budget = 1; }), tier.pick(3, 4), secs),
             ],
             rule: "in every distinct state of a hub-core exploration (bond, unbond, convert, withdraw, transfers, reward accrual and index updates, time, <= F slashing deviations incl. 50% slashes and full pool drains) a probe runs on clones: every holder unbonds one unit and its whole balance of each token; the whole-balance exit is continued (jump past the epoch, a fresh holder's one-unit unbond must close the batch, jump past the unbonding period, withdraw); and every user-facing transition (bond, unbond, convert, withdraw, slashing check, token transfer/send, reward claim) is re-executed under the 8 other swap/oracle stub-mode combinations (ok/fail/garbage) and must give the identical result, effects and post-state; non-trivial = a state with exit probes or a transition with stub-mode products".into(),
